@@ -144,7 +144,15 @@ class C01(Prop):
             pipe = ["map", "add1", ["hot", "0"]] if mapped else ["hot", "0"]
             fields = [("uniterr", [("ec", "ce")[i % 2]]), ("closure", ["1"])] + ([("umap", ["1"])] if mapped else []) \
                 + [("pipe", [pipe])]
-            out.append(Case("pipe", ("local", "threads")[(i // 2) % 2], fields, evs, {"kind": "unit-error"}))
+            fl = ("local", "threads")[(i // 2) % 2]
+            if fl == "local" and i % 5 < 2:
+                # the subscriber's ITEM closure fails on one of the items (harness field `npanic v`, contained by
+                # catch_unwind): it stays subscribed, and its one terminal is still the only one (seed C01-11 made the
+                # closure observer report finished after a panic, and on_complete fire on an error over a finished downstream)
+                vals = [int(e[2][1]) + (1 if mapped else 0) for e in evs if e[0] == "emit" and isinstance(e[2], list) and e[2][0] == "n"]
+                if vals:
+                    fields = [("npanic", [str(rngU.choice(vals))])] + fields
+            out.append(Case("pipe", fl, fields, evs, {"kind": "unit-error"}))
         # the subscriber's error handler FAILS after it has been told (harness field `epanic`: it panics; the emitting call is
         # wrapped in catch_unwind, execution goes on): the error was that subscriber's terminal — nothing may follow it
         # (seed C01-10: a drop guard in on_error completed the downstream while the handler's panic unwound)
